@@ -209,6 +209,8 @@ IDENTITY_LIKE = {
     "core::option::Option::ok_or": (0, 1),
     "core::option::Option::ok_or_else": (0, 1),
     "core::option::Option::unwrap_or": (0, 1),
+    "core::option::Option::unwrap_or_default": (0,),
+    "core::result::Result::unwrap_or_default": (0,),
     "core::option::Option::unwrap_or_else": (0, 1),
     "core::option::Option::unwrap": (0,),
     "core::option::Option::expect": (0,),
